@@ -1175,7 +1175,7 @@ Proof.
   destruct (write_path cfg_fixed wd title) as [raw|] eqn:EW.
   2:{ injection H as <- _. now apply Keeps_refl. }
   destruct (write_path_fixed _ _ _ EW) as (cl & -> & Hcl).
-  cbn [fixW cfg_fixed] in H.
+  unfold cached, remember in H. cbn [fixW fixK cfg_fixed negb andb] in H.
   pose proof (RealD_inv _ _ I) as HRwd.
   rewrite removelast_Nms, !clean_abs_names in H.
   destruct (strip_prefix wd (removelast cl)) as [rel|] eqn:SP.
@@ -1230,6 +1230,7 @@ Proof.
   destruct (write_path cfg_fixed wd title) as [raw|] eqn:EW.
   2:{ injection H as <- _. now apply Keeps_refl. }
   destruct (write_path_fixed _ _ _ EW) as (cl & -> & Hcl).
+  unfold cached, remember in H. cbn [fixK cfg_fixed negb andb] in H.
   rewrite clean_abs_names in H.
   destruct (strip_prefix wd cl) as [rel|] eqn:SP.
   2:{ unfold inside in Hcl. rewrite SP in Hcl. discriminate. }
@@ -1411,7 +1412,7 @@ Ltac escape_with os p :=
 (* F10: hard link whose relative target is taken from the process's current directory *)
 Definition os_hardlink_cwd : list pushop :=
   [PDir (b "t") [] [EHard (b "t/h") (b "secret"); EReg (b "t/h") 7%N 420%N]].
-Lemma refuted_hardlink_cwd : escapes (mkCfg false true true true true true).
+Lemma refuted_hardlink_cwd : escapes (mkCfg false true true true true true true).
 Proof. escape_with os_hardlink_cwd [b "c"; b "secret"]. Qed.
 
 (* F11: the raw link target is lexically inside and physically outside; a regular entry (or a
@@ -1423,9 +1424,9 @@ Definition os_raw_target_blob : list pushop :=
   [PDir (b "t") [] [EDir (b "t/a/b") 493%N; ESym (b "t/a/b/s") (b "../..");
                  ESym (b "t/l") (b "a/b/s/../../../victim")];
    PBlob (b "t/l") 7%N].
-Lemma refuted_write_through_link : escapes (mkCfg true true true true false true).
+Lemma refuted_write_through_link : escapes (mkCfg true true true true false true true).
 Proof. escape_with os_raw_target [b "victim"]. Qed.
-Lemma refuted_blob_through_link : escapes (mkCfg true true true true false true).
+Lemma refuted_blob_through_link : escapes (mkCfg true true true true false true true).
 Proof. escape_with os_raw_target_blob [b "victim"]. Qed.
 
 (* directories created / entered through a link: unpack directory reached through a link
@@ -1433,21 +1434,21 @@ Proof. escape_with os_raw_target_blob [b "victim"]. Qed.
 Definition os_title_through_link : list pushop :=
   [PDir (b ".") [] [ESym (b "./x") (b ".")];
    PDir (b "x") [] [ESym (b "x/l") (b "../x/victim"); EReg (b "x/l") 7%N 420%N]].
-Lemma refuted_title_through_link : escapes (mkCfg true true true false false true).
+Lemma refuted_title_through_link : escapes (mkCfg true true true false false true true).
 Proof. escape_with os_title_through_link [b "r"; b "x"; b "victim"]. Qed.
 
 (* named blob below a link (here a hard link to a link, which sits at another depth) *)
 Definition os_hardlink_symlink : list pushop :=
   [PDir (b "t") [] [EDir (b "t/b/c") 493%N; ESym (b "t/b/c/s") (b "../.."); EHard (b "t/h") (b "b/c/s")];
    PBlob (b "t/h/victim") 7%N].
-Lemma refuted_dir_through_link : escapes (mkCfg true true true false true true).
+Lemma refuted_dir_through_link : escapes (mkCfg true true true false true true true).
 Proof. escape_with os_hardlink_symlink [b "r"; b "victim"]. Qed.
 
 (* absolute title used raw: ".." after a store link *)
 Definition os_abs_title : list pushop :=
   [PDir (b "t") [] [EDir (b "t/b") 493%N; ESym (b "t/b/s") (b "..")];
    PBlob (b "/r/w/t/b/s/../../../victim") 7%N].
-Lemma refuted_abs_title : escapes (mkCfg true false true true true true).
+Lemma refuted_abs_title : escapes (mkCfg true false true true true true true).
 Proof. escape_with os_abs_title [b "victim"]. Qed.
 
 Lemma prefix_escapes : escapes cfg_prefix.
@@ -1490,7 +1491,7 @@ Proof.
   destruct (existsb (str_eqb title) (st_names s)); [reflexivity|].
   destruct (write_path g wd title) as [raw|] eqn:EW; [|reflexivity].
   apply write_path_lex in EW as [Hin ->].
-  destruct (ensure_write_dir g wd (st_fs s) (lex_loc wd title) raw) as [f1|]; [|reflexivity].
+  match goal with |- snd (match ?m with Some _ => _ | None => _ end) = _ => destruct m as [f1|] end; [|reflexivity].
   pose proof (extract_stops g pres cwd (lex_loc wd title) title e es2 false es1 f1 ts []
                 (fun f0 => entry_outside_rejected g pres wd cwd title f0 e Hin He)) as Hs.
   change (0 =? 1)%N with false. change (0 =? 2)%N with false. change (0 =? 3)%N with false. cbn [negb andb].
@@ -1541,7 +1542,7 @@ Qed.
 Definition os_replace_wd : list pushop := [PDir (b ".") [] [ESym (b ".") (b "w/x")]].
 
 Lemma refuted_replace_wd :
-  lookup (st_fs (fst (pushes (mkCfg true true false true true true) false wd0 cwd0 (mkStore fs1 [] []) os_replace_wd))) wd0
+  lookup (st_fs (fst (pushes (mkCfg true true false true true true true) false wd0 cwd0 (mkStore fs1 [] []) os_replace_wd))) wd0
   <> Some NDir.
 Proof. vm_compute. discriminate. Qed.
 
@@ -1579,7 +1580,7 @@ Definition os_touch : list pushop :=
   [PDir (b "t") [0%N; 0%N; 77%N]
         [EDir (b "t/a/b") 493%N; ESym (b "t/a/b/s") (b "../.."); ESym (b "t/l") (b "a/b/s/../../../victim")]].
 
-Lemma refuted_touch : escapes (mkCfg true true true true true false).
+Lemma refuted_touch : escapes (mkCfg true true true true true false true).
 Proof. escape_with os_touch [b "victim"]. Qed.
 
 Lemma touch_fixed :
@@ -1741,6 +1742,7 @@ Proof.
   { intros t ts es how. unfold push_dir.
     destruct (existsb (str_eqb t) (st_names s)); [reflexivity|].
     destruct (write_path cfg_fixed wd t); [|reflexivity].
+    unfold cached, remember. cbn [fixK cfg_fixed negb andb].
     destruct (ensure_write_dir cfg_fixed wd (st_fs s) (clean_abs l) l); [|reflexivity].
     destruct (how =? 1)%N; [reflexivity|]. now rewrite (extract_cwd pres cwd1 cwd2). }
   destruct o as [t c|t ts es|layers|how t ts es]; try reflexivity;
@@ -1933,7 +1935,7 @@ Proof.
   pose proof (write_path_lex _ _ _ _ EW) as [_ Ecl].
   destruct (write_path_fixed _ _ _ EW) as (cl & -> & Hcl).
   rewrite clean_abs_names in Ecl. rewrite <- Ecl in Hcw. clear Ecl.
-  cbn [fixW cfg_fixed] in H.
+  unfold cached, remember in H. cbn [fixW fixK cfg_fixed negb andb] in H.
   rewrite removelast_Nms, !clean_abs_names in H.
   destruct (strip_prefix wd (removelast cl)) as [rel|] eqn:SP.
   2:{ destruct (parent_outside wd cl Hcl SP) as [E _]. contradiction. }
@@ -1975,6 +1977,7 @@ Proof.
   destruct (write_path cfg_fixed wd title) as [raw|] eqn:EW.
   2:{ injection H as <- _. now apply Keeps0_refl. }
   destruct (write_path_fixed _ _ _ EW) as (cl & -> & Hcl).
+  unfold cached, remember in H. cbn [fixK cfg_fixed negb andb] in H.
   rewrite clean_abs_names in H.
   destruct (strip_prefix wd cl) as [rel|] eqn:SP.
   2:{ unfold inside in Hcl. rewrite SP in Hcl. discriminate. }
@@ -2069,4 +2072,21 @@ Lemma first_push_ok :
   snd (pushes cfg_fixed false wd0 cwd0 (mkStore fs3 [] []) os_first_push) = [false; true; true] /\
   lookup (st_fs (fst (pushes cfg_fixed false wd0 cwd0 (mkStore fs3 [] []) os_first_push))) wd0 = Some NDir /\
   view_at (st_fs (fst (pushes cfg_fixed false wd0 cwd0 (mkStore fs3 [] []) os_first_push))) [b "victim"] = view_at fs3 [b "victim"].
+Proof. vm_compute. repeat split. Qed.
+
+(* the seeded change C11-r3m2 as a model variant (fixK = false): remembering that a directory was
+   already checked is unsound, because a later archive can replace the (empty) directory by a link;
+   every write has to walk its path again in the current tree *)
+Definition os_cached_dir : list pushop :=
+  [PDir (b "a/e") [] [EDir (b "a/e") 493%N];
+   PDir (b "a") [] [ESym (b "a/p") (b "."); ESym (b "a/q") (b "p/.."); ESym (b "a/e") (b "q/..")];
+   PBlob (b "a/e/victim") 22%N].
+
+Lemma refuted_cached_dir : escapes (mkCfg true true true true true true false).
+Proof. escape_with os_cached_dir [b "r"; b "victim"]. Qed.
+
+Lemma cached_dir_fixed :
+  snd (run0 cfg_fixed os_cached_dir) = [true; true; false] /\
+  view_at (fst (run0 cfg_fixed os_cached_dir)) [b "r"; b "victim"] = view_at fs0 [b "r"; b "victim"] /\
+  view_at (fst (run0 cfg_fixed os_cached_dir)) [b "r"; b "w"; b "a"; b "e"] = VSym (b "q/..").
 Proof. vm_compute. repeat split. Qed.
